@@ -439,3 +439,7 @@ w("C12", "writer's stat converter ignores collection-valued statistics again", "
   "        if isinstance(stat, (list, tuple)):\n            # collection-valued statistics, e.g. the allowed values of\n            # ``isin``: serialize the elements\n            return [handle_stat_dtype(item) for item in stat]\n", "")
 w("C12", "reader's stat converter ignores collection-valued statistics again", "pandera/io/pandas_io.py",
   "        if isinstance(stat, (list, tuple)):\n            return [handle_stat_dtype(item) for item in stat]\n        try:", "        try:")
+w("C15", "reset_index orders the labels by a set again", "pandera/api/dataframe/container.py",
+  "            else list(dict.fromkeys(level))\n", "            else list(set(level))\n")
+w("C15", "set_index orders the keys by a set again", "pandera/api/dataframe/container.py",
+  "            list(dict.fromkeys(keys)) if not isinstance(keys, list) else keys\n", "            list(set(keys)) if not isinstance(keys, list) else keys\n")
